@@ -281,7 +281,16 @@ func execConc(t []string) string {
 
 // tree renders the complete value tree through the public accessors, in the
 // canonical form of Spec.Encoding.renderPtr.
+// treeBudget: at most this many pointers are rendered per tree (depth first, left to right), the rest print as "~":
+// a few hostile words can describe a tree of astronomical size (the spec renderer has the same budget)
+var treeBudget = 3000
+
 func tree(sb *strings.Builder, p capnp.Ptr, err error) {
+	if treeBudget == 0 {
+		sb.WriteString("~")
+		return
+	}
+	treeBudget--
 	if err != nil {
 		sb.WriteString("E")
 		return
@@ -407,6 +416,7 @@ func execTree(t []string) string {
 	msg := &capnp.Message{Arena: capnp.MultiSegment(segs), TraverseLimit: 1 << 40, DepthLimit: 64}
 	root, err := msg.Root()
 	var sb strings.Builder
+	treeBudget = 3000
 	tree(&sb, root, err)
 	return sb.String()
 }
